@@ -23,6 +23,10 @@ class Repeat(Operation):
 
     def backward_var(self, grad, index, **kwargs):
         a = self.variables[index].data  # type: np.ndarray
+        if np.ndim(self._repeats) == 0:
+            # python ints, numpy integers and 0-d arrays alike
+            self._repeats = int(self._repeats)
+
         if isinstance(self._repeats, int) or len(self._repeats) == 1:
             if not isinstance(self._repeats, int):
                 (self._repeats,) = self._repeats
